@@ -80,6 +80,8 @@ def strategy(tier: str):
 
 
 def enumerate_cases(tier: str):
+    # one event of every kind under every environment dimension (transport kind, logging, warnings, a bystander gateway, registry file, ...)
+    yield from drive.env_sweep_cases()
     for version in ("1.4", "2.2"):
         for ids in ([], [1, 2, 3], [0, 5, 250]):
             for listeners in (2, 3):
@@ -270,6 +272,8 @@ def _run_two_gateways(case: dict) -> Outcome:
 
 
 def run_case(case: dict) -> Outcome:
+    if case.get("kind") == "envsweep":
+        return drive.run_env_case(case, ASPECTS)
     if case.get("kind") == "two-gateways":
         return _run_two_gateways(case)
     if case.get("kind") == "concurrent":
